@@ -127,6 +127,11 @@ EXC_PARENTS = {
     'KeyError': ['KeyError', 'LookupError', 'Exception', 'BaseException'],
     'IndexError': ['IndexError', 'LookupError', 'Exception', 'BaseException'],
     'Exception': ['Exception', 'BaseException'],
+    'NotImplementedError': ['NotImplementedError', 'RuntimeError', 'Exception', 'BaseException'],
+    'TypeError': ['TypeError', 'Exception', 'BaseException'],
+    'AssertionError': ['AssertionError', 'Exception', 'BaseException'],
+    'RuntimeError': ['RuntimeError', 'Exception', 'BaseException'],
+    'AttributeError': ['AttributeError', 'Exception', 'BaseException'],
 }
 
 
